@@ -401,9 +401,11 @@ class FileInfo(os.PathLike):
     def to_json_dict(self):
         return {
             "path": self.path,
+            # strftime("%Y") does not zero-pad years before 1000 on all
+            # platforms (e.g. datetime.min), isoformat always does:
             "times": [
-                self.times[0].strftime("%Y-%m-%dT%H:%M:%S.%f"),
-                self.times[1].strftime("%Y-%m-%dT%H:%M:%S.%f")
+                self.times[0].isoformat(timespec="microseconds"),
+                self.times[1].isoformat(timespec="microseconds")
             ],
             "attr": self.attr,
         }
